@@ -350,6 +350,46 @@ def through_servers(ctx, res):
                     ok = False
             if not ok:
                 res.oracle_violations.append({'case': case, 'detail': 'reply lines %r do not decode to %r' % (msgs, items), 'key': {'kind': 'decode_mismatch', 'writer': 'server'}})
+    # GIT / GUI through the server: one triple per REQUESTED item, in request order, also when a name occurs twice
+    for i in range(6 if ctx.tier == 'quick' else 60):
+        names = [g.text(allow_none=False, tagged=False) for _ in range(rng.choice([1, 2, 3]))]
+        items = names + [names[0]] if i % 2 == 0 else names + [rng.choice(names), names[-1]]
+        cnt = {'n': 0, 'f': 0}
+
+        def nxt_int(*a):
+            cnt['n'] += 1
+            return cnt['n']
+
+        def nxt_float(*a):
+            cnt['f'] += 1
+            return float(cnt['f']) + 0.5
+        gui = bool(i % 3 == 0)
+        script = {'mode_may_be_allowed': lambda *a: True, 'ismode_allowed': lambda *a: True,
+                  'get_distinct_snapshot_length': nxt_int, 'get_allowed_buffer_size': nxt_int,
+                  'get_min_source_frequency': nxt_float, 'get_allowed_max_item_frequency': nxt_float}
+        with fixture.patched() as env:
+            ad = fixture.metadata_adapter(script)
+            h = fixture.make_handler()
+            srv = fixture.start_meta(env, ad, handler=h)
+            fixture.feed(srv, '1|MPI|S|ARI.version|S|1.8.3\r\n')
+            fixture.drain(srv)
+            q = ('WGUI', 'u', items) if gui else ('WGIT', items)
+            fixture.feed(srv, wire.encode_line(b'7c', 'GUI' if gui else 'GIT', q).decode('ascii'))
+            msgs = fixture.drain(srv)
+        res.evaluations += 1
+        res.count('server:GIT/GUI:repeated-names')
+        want = [(k + 1, float(k + 1) + 0.5, ['RAW', 'MERGE', 'DISTINCT', 'COMMAND']) for k in range(len(items))]
+        ok = False
+        if len(msgs) == 1 and msgs[0].startswith('7c|'):
+            try:
+                m, data = ari.item_data(msgs[0][3:])
+                ok = data == want
+            except (ari.Bad, ValueError):
+                ok = False
+        if not ok:
+            res.oracle_violations.append({'case': {'through': 'MetadataProviderServer', 'method': 'GUI' if gui else 'GIT', 'items': items},
+                                          'detail': 'reply %r does not carry one triple per requested item in request order (%d items requested)' % (msgs[:1], len(items)),
+                                          'key': {'kind': 'decode_mismatch', 'writer': 'server-item-data'}})
     # data server: update / eos / cls through the listener
     for i in range(n):
         ev = {g.text(allow_none=False): rng.choice([None, 'v', b'\x01\x02', g.text(allow_none=False)]) for _ in range(rng.choice([0, 1, 3]))}
